@@ -260,6 +260,11 @@ class Ctx:
 
     def fail(self, what, case, key=None):
         self.fails.append((what, case, key or what))
+        if len(self.fails) == 1:
+            # keep the first failure where the supervisor finds it: if the implementation (whose state may already be
+            # corrupt) kills the interpreter later in the run, this case is the replay
+            self.inflight({"first_failure": what, "key": key or what, "case": case})
+            self._inflight_frozen = True
 
     def disagree(self, op, case, impl, model):
         self.disagreements.append((op, case, impl, model))
@@ -273,10 +278,38 @@ class Ctx:
     def inflight(self, case):
         """record the case about to be handed to in-process implementation code that may abort the interpreter
         (C++ assert / segfault); the supervisor turns such a death into a VIOLATION with this case as replay"""
+        if getattr(self, "_inflight_frozen", False):
+            return
+        self.last_inflight = case
         path = os.environ.get("WHVERIF_INFLIGHT")
         if path:
             with open(path, "w") as f:
                 json.dump(case, f, default=str)
+
+
+def guarded_run(module, ctx):
+    """module.run(ctx); an exception that escapes it is either the implementation's (a frame of whatshap / a .pyx file is
+    on the traceback: the real code raised on an input the check considers valid and the check did not expect it) -> a
+    property-level failure with the in-flight case as replay, or the harness's own -> infrastructure error (False)."""
+    import traceback
+    try:
+        module.run(ctx)
+        return True
+    except Infra:
+        raise
+    except Exception as e:
+        tb = traceback.extract_tb(e.__traceback__)
+        impl = any(f.filename.endswith((".pyx", ".pxd")) or ("/whatshap/" in f.filename and "/harness/" not in f.filename) for f in tb)
+        text = "".join(traceback.format_exception(type(e), e, e.__traceback__))
+        if not impl:
+            print("[infra] the check itself raised:\n" + text, file=sys.stderr)
+            return False
+        where = next((f"{os.path.basename(f.filename)}:{f.lineno} {f.name}" for f in reversed(tb)
+                      if f.filename.endswith((".pyx", ".pxd")) or "/whatshap/" in f.filename), "?")
+        ctx.fail(f"the implementation raised {type(e).__name__}: {str(e)[:200]} at {where} on an input the check treats as valid",
+                 {"in_flight": getattr(ctx, "last_inflight", None), "traceback": text[-1500:]},
+                 key="unexpected-exception-" + type(e).__name__)
+        return True
 
 
 def run_check(prop, tier, seed, module, replay=None, level="proof", need_overlay=True):
@@ -307,14 +340,16 @@ def run_check(prop, tier, seed, module, replay=None, level="proof", need_overlay
         ctx.extra["anchors_changed"] = changed
         if changed and not replay:
             ctx.scale = 3   # the anchored code moved since the model was validated: search harder
-        module.run(ctx)
+        if not guarded_run(module, ctx):
+            return 2
         if ctx.disagreements and not ctx.fails and not replay:
             # correspondence broke but no property failure yet: enlarged failing-input search
             # (DESIGN §2 step 4): same module, 4x the sizes, fresh seed; counters accumulate
             ctx.scale = 4
             ctx.rng = random.Random(seed * 7919 + 17)
             ctx.escalated = True
-            module.run(ctx)
+            if not guarded_run(module, ctx):
+                return 2
         if ctx._model:
             ctx._model.close()
     except Infra as e:
@@ -424,9 +459,13 @@ def supervise(prop, tier, seed, level, t0):
             except Exception:
                 case = None
         replay_path = os.path.join(OUTROOT, "replays", f"{prop}-{tier}-{seed}.json")
+        what = "the implementation aborted / crashed the Python interpreter on this input"
+        if isinstance(case, dict) and "first_failure" in case:
+            what = ("the implementation crashed the Python interpreter later in the run; first property failure before that: "
+                    + str(case["first_failure"]))
+            case = case.get("case")
         json.dump({"property": prop, "kind": "implementation-crashed-the-interpreter", "returncode": rc,
-                   "what": "the implementation aborted / crashed the Python interpreter on this input", "key": "crash",
-                   "case": case}, open(replay_path, "w"), indent=1, default=str)
+                   "what": what, "key": "crash", "case": case}, open(replay_path, "w"), indent=1, default=str)
         known = load_known(prop)
         ev = {"property_id": prop, "tier": tier, "seed": seed, "level": level,
               "coverage": {"evaluations": 1, "distinct_nontrivial": 0, "samples": [case], "rule": "run aborted by a crash of the implementation",
